@@ -1728,6 +1728,10 @@ pub struct ConnectionH2<Front: SocketHandler> {
     /// on the wire (`expect_write` designates it): the stream is retired once
     /// `write_streams` has written out what was serialised for it.
     pub retire_after_flush: Option<StreamId>,
+    /// Frames serialised for a stream that was ended (`end_stream`) while one
+    /// of them was half written: they go out ahead of the zero buffer, so the
+    /// peer keeps frame synchronisation.
+    pub abandoned_out: Vec<u8>,
     pub last_stream_id: StreamId,
     pub local_settings: H2Settings,
     pub peer_settings: H2Settings,
@@ -1960,6 +1964,7 @@ impl<Front: SocketHandler> ConnectionH2<Front> {
             expect_write: None,
             zero_flush_deferred: false,
             retire_after_flush: None,
+            abandoned_out: Vec::new(),
             last_stream_id: 0,
             local_settings,
             peer_settings: H2Settings::default(),
@@ -4884,6 +4889,7 @@ impl<Front: SocketHandler> ConnectionH2<Front> {
             return false;
         }
         self.expect_write.is_some()
+            || !self.abandoned_out.is_empty()
             || !self.zero_out.storage.is_empty()
             || self.socket.socket_wants_write()
     }
@@ -4946,6 +4952,15 @@ impl<Front: SocketHandler> ConnectionH2<Front> {
     /// meaning the caller should stop writing and wait for the next writable event.
     /// Returns `false` when the buffer has been fully drained.
     fn flush_zero_to_socket(&mut self) -> bool {
+        while !self.abandoned_out.is_empty() {
+            let (size, status) = self.socket.socket_write(&self.abandoned_out);
+            self.abandoned_out.drain(..size);
+            self.position.count_bytes_out_counter(size);
+            self.bytes.overhead_bout += size;
+            if update_readiness_after_write(size, status, &mut self.readiness) {
+                return true;
+            }
+        }
         while !self.zero_out.storage.is_empty() {
             let (size, status) = self.socket.socket_write(self.zero_out.storage.data());
             #[cfg(debug_assertions)]
@@ -6684,8 +6699,28 @@ impl<Front: SocketHandler> ConnectionH2<Front> {
                     // on a closed stream would be a protocol error that could cause
                     // the H2 peer to close the entire connection.
                     let stream = &context.streams[stream_gid];
-                    let fully_completed =
-                        stream.back_received_end_of_stream && stream.front.is_terminated();
+                    let fully_completed = stream.back_received_end_of_stream
+                        && stream.front.is_terminated()
+                        && stream.front.is_completed();
+                    if matches!(
+                        self.expect_write,
+                        Some(H2StreamId::Other { gid, .. }) if gid == stream_gid
+                    ) {
+                        // Socket back-pressure stopped a frame of this stream
+                        // half way, and the slot is about to be reused: keep
+                        // what was serialised for it and write it out before
+                        // anything else, or the next frame header lands inside
+                        // the announced payload. The unserialised rest of the
+                        // request is dropped, RST_STREAM follows.
+                        let buffer = stream.front.storage.buffer();
+                        for block in &stream.front.out {
+                            if let kawa::OutBlock::Store(store) = block {
+                                self.abandoned_out.extend_from_slice(store.data(buffer));
+                            }
+                        }
+                        self.zero_flush_deferred = true;
+                        self.readiness.arm_writable();
+                    }
                     if !fully_completed && !self.rst_sent.contains(&id) {
                         let kawa = &mut self.zero_out;
                         let mut frame = [0; 13];
